@@ -863,6 +863,9 @@ func (w *World) Exec(o *Op) *Obs {
 		req.Method, req.Path, req.Query = "DELETE", kpath, "tagging"
 	case "listVersions":
 		req.Method, req.Path, req.Query = "GET", bpath, "versions"
+		if o.Max > 0 {
+			req.Query = fmt.Sprintf("versions&max-keys=%d", o.Max)
+		}
 		fields = func(r gw.Resp) {
 			type ent struct {
 				Key          string `xml:"Key"`
@@ -873,10 +876,36 @@ func (w *World) Exec(o *Op) *Obs {
 				LastModified string `xml:"LastModified"`
 			}
 			var lv struct {
-				Versions []ent `xml:"Version"`
-				Markers  []ent `xml:"DeleteMarker"`
+				Versions            []ent  `xml:"Version"`
+				Markers             []ent  `xml:"DeleteMarker"`
+				IsTruncated         bool   `xml:"IsTruncated"`
+				NextKeyMarker       string `xml:"NextKeyMarker"`
+				NextVersionIdMarker string `xml:"NextVersionIdMarker"`
 			}
 			xml.Unmarshal(r.Body, &lv)
+			// paged listing (o.Max > 0): follow the markers to the end; the pages together must be the listing
+			for pages := 1; o.Max > 0 && lv.IsTruncated; pages++ {
+				if pages > 400 {
+					obs.Fields = append(obs.Fields, KV{"paging", "does-not-end"})
+					break
+				}
+				q := req
+				q.Query = fmt.Sprintf("versions&max-keys=%d&key-marker=%s&version-id-marker=%s", o.Max, gw.EncodeQueryValue(lv.NextKeyMarker), gw.EncodeQueryValue(lv.NextVersionIdMarker))
+				pr := gw.Do(w.addr(), q)
+				var pg struct {
+					Versions            []ent  `xml:"Version"`
+					Markers             []ent  `xml:"DeleteMarker"`
+					IsTruncated         bool   `xml:"IsTruncated"`
+					NextKeyMarker       string `xml:"NextKeyMarker"`
+					NextVersionIdMarker string `xml:"NextVersionIdMarker"`
+				}
+				if pr.Status != 200 || xml.Unmarshal(pr.Body, &pg) != nil {
+					obs.Fields = append(obs.Fields, KV{"paging", fmt.Sprintf("page-%d-status-%d", pages+1, pr.Status)})
+					break
+				}
+				lv.Versions, lv.Markers = append(lv.Versions, pg.Versions...), append(lv.Markers, pg.Markers...)
+				lv.IsTruncated, lv.NextKeyMarker, lv.NextVersionIdMarker = pg.IsTruncated, pg.NextKeyMarker, pg.NextVersionIdMarker
+			}
 			// The XML groups versions and delete markers separately; canonical order is by key, then
 			// latest first, then descending LastModified/ULID is not comparable here: keep, per key,
 			// the latest first and the rest in the order given (versions before markers).
